@@ -1286,4 +1286,250 @@ theorem addSignedMul_contract (W : Nat) (hW : 3 ≤ W) : ∀ fuel, GenContract W
     · simp only [hlt, if_false]
       exact ordered c neg a b (by omega) hcl hc ha hb
 
+
+-- ====================================================================== sqr::simple::square, sqr::sqr
+
+/-- triangular and diagonal parts of a square -/
+def tri (W : Nat) : List Nat → Nat
+  | [] => 0
+  | m :: as => 2 ^ W * (m * val W as) + 2 ^ W * 2 ^ W * tri W as
+def diag (W : Nat) : List Nat → Nat
+  | [] => 0
+  | m :: as => m * m + 2 ^ W * 2 ^ W * diag W as
+
+theorem sq_eq_tri_diag (W : Nat) (a : List Nat) : val W a * val W a = 2 * tri W a + diag W a := by
+  induction a with
+  | nil => simp [tri, diag]
+  | cons m as ih =>
+    simp only [val_cons, tri, diag]
+    have : (m + 2 ^ W * val W as) * (m + 2 ^ W * val W as)
+        = m * m + 2 * (2 ^ W * (m * val W as)) + 2 ^ W * 2 ^ W * (val W as * val W as) := by ring
+    rw [this, ih]; ring
+
+theorem window_single (c : List Nat) (i : Nat) (h : i < c.length) :
+    window c i (i + 1) = [c.getD i 0] := by
+  unfold window
+  rw [take_succ_getD c i h, List.drop_append_of_le_length (by rw [length_take_of_le (by omega)])]
+  rw [List.drop_eq_nil_of_le (by rw [length_take_of_le (by omega)])]
+  rfl
+
+theorem sqrTriLoop_spec (W : Nat) : ∀ (aCur s : List Nat) (c0 : Nat), s.length = 2 * aCur.length →
+    IsWords W s → IsWords W aCur → c0 ≤ 1 →
+    Upd W s (sqrTriLoop W s aCur c0).1 ((sqrTriLoop W s aCur c0).2 : Int)
+      ((tri W aCur : Int) + (2 : Int) ^ (W * aCur.length) * c0) ∧ (sqrTriLoop W s aCur c0).2 ≤ 1 := by
+  intro aCur
+  induction aCur with
+  | nil =>
+    intro s c0 hl hs _ hc
+    simp only [List.length_nil, Nat.mul_zero] at hl
+    have : s = [] := List.eq_nil_of_length_eq_zero hl
+    subst this
+    simp only [sqrTriLoop]
+    exact ⟨⟨rfl, hs, by simp [tri]⟩, hc⟩
+  | cons m aRest ih =>
+    intro s c0 hl hs ha hc
+    have hp : 0 < 2 ^ W := Nat.two_pow_pos W
+    simp only [List.length_cons] at hl
+    have hj1 : 1 + aRest.length ≤ s.length := by omega
+    have hwl := window_length s 1 (1 + aRest.length) hj1
+    have hww := window_words hs 1 (1 + aRest.length)
+    obtain ⟨w1, w2, w3, w4⟩ := addMulWordSameLen_spec W (window s 1 (1 + aRest.length)) m aRest hww
+      ha.tail (by rw [hwl]; omega) ha.head
+    simp only [sqrTriLoop]
+    generalize addMulWordSameLen W (window s 1 (1 + aRest.length)) m aRest = res at w1 w2 w3 w4
+    obtain ⟨win, cw⟩ := res
+    simp only at w1 w2 w3 w4 ⊢
+    have hu1 : Upd W (window s 1 (1 + aRest.length)) win (cw : Int) ((m * val W aRest : Nat) : Int) := by
+      refine ⟨w2, w3, ?_⟩
+      have := congrArg (Nat.cast : Nat → Int) w1
+      push_cast at this ⊢
+      linarith
+    obtain ⟨s1, s2, s3⟩ := setWindow_upd W s 1 (1 + aRest.length) (by omega) hj1 hs win cw _ hu1
+    generalize setWindow s 1 win = sA at s1 s2 s3 ⊢
+    -- the top word
+    have hjt : 1 + aRest.length < sA.length := by omega
+    have htop := s2.getD (1 + aRest.length)
+    have hws := window_single sA (1 + aRest.length) hjt
+    generalize sA.getD (1 + aRest.length) 0 = top at htop hws ⊢
+    have hq : (top + cw + c0) / 2 ^ W ≤ 1 := by
+      have : top + cw + c0 < 2 * 2 ^ W := by omega
+      have := (Nat.div_lt_iff_lt_mul hp).mpr this
+      omega
+    have hdm := Nat.div_add_mod (top + cw + c0) (2 ^ W)
+    have hmd : (top + cw + c0) % 2 ^ W < 2 ^ W := Nat.mod_lt _ hp
+    generalize (top + cw + c0) / 2 ^ W = q at hq hdm ⊢
+    generalize (top + cw + c0) % 2 ^ W = tm at hmd hdm ⊢
+    have hu2 : Upd W (window sA (1 + aRest.length) (1 + aRest.length + 1)) [tm] (q : Int)
+        ((cw : Int) + c0) := by
+      rw [hws]
+      refine ⟨rfl, IsWords.cons hmd (IsWords.nil W), ?_⟩
+      simp only [val_cons, val_nil, List.length_cons, List.length_nil, Nat.zero_add, Nat.mul_one,
+        Nat.mul_zero, Nat.add_zero]
+      have := congrArg (Nat.cast : Nat → Int) hdm
+      push_cast at this ⊢
+      linarith
+    obtain ⟨t1, t2, t3⟩ := setWindow_upd W sA (1 + aRest.length) (1 + aRest.length + 1) (by omega)
+      (by omega) s2 [tm] q _ hu2
+    generalize setWindow sA (1 + aRest.length) [tm] = sB at t1 t2 t3 ⊢
+    -- the remaining rows
+    obtain ⟨⟨i1, i2, i3⟩, i4⟩ := ih (sB.drop 2) q (by rw [List.length_drop]; omega) (t2.drop _) ha.tail hq
+    generalize sqrTriLoop W (sB.drop 2) aRest q = res2 at i1 i2 i3 i4
+    obtain ⟨r, c0'⟩ := res2
+    simp only at i1 i2 i3 i4 ⊢
+    have hiu : Upd W (window sB 2 sB.length) r (c0' : Int)
+        ((tri W aRest : Int) + (2 : Int) ^ (W * aRest.length) * q) := by
+      rw [← drop_eq_window]; exact ⟨i1, i2, i3⟩
+    have hrl : r.length = sB.length - 2 := by rw [i1, List.length_drop]
+    rw [take_append_eq_setWindow sB 2 r (by omega)]
+    obtain ⟨v1, v2, v3⟩ := setWindow_upd W sB 2 sB.length (by omega) (Nat.le_refl _) t2 r c0' _ hiu
+    refine ⟨⟨by rw [v1, t1, s1], v2, ?_⟩, i4⟩
+    rw [v3, t3, s3, t1, s1]
+    simp only [tri, List.length_cons]
+    have e1 : (2 : Int) ^ (W * (1 + aRest.length)) = (2 : Int) ^ W * (2 : Int) ^ (W * aRest.length) := by
+      rw [← pow_add]; congr 1; ring
+    have e2 : (2 : Int) ^ (W * (1 + aRest.length + 1))
+        = (2 : Int) ^ W * (2 : Int) ^ W * (2 : Int) ^ (W * aRest.length) := by
+      rw [← pow_add, ← pow_add]; congr 1; ring
+    have e3 : (2 : Int) ^ (W * (aRest.length + 1)) = (2 : Int) ^ W * (2 : Int) ^ (W * aRest.length) := by
+      rw [← pow_add]; congr 1; ring
+    have e4 : (2 : Int) ^ (W * 2) = (2 : Int) ^ W * (2 : Int) ^ W := by
+      rw [← pow_add]; congr 1; ring
+    have e5 : (2 : Int) ^ (W * 1) = (2 : Int) ^ W := by rw [Nat.mul_one]
+    rw [e1, e2, e3, e4, e5]
+    push_cast
+    ring
+
+
+theorem sqrDiagLoop_spec (W : Nat) : ∀ (a s : List Nat) (c1 c2 : Nat), s.length = 2 * a.length →
+    IsWords W s → IsWords W a → c1 ≤ 1 → c2 ≤ 1 →
+    val W (sqrDiagLoop W s a c1 c2).1
+        + 2 ^ (W * s.length) * ((sqrDiagLoop W s a c1 c2).2.1 + (sqrDiagLoop W s a c1 c2).2.2)
+      = 2 * val W s + diag W a + c1 + c2 ∧
+    (sqrDiagLoop W s a c1 c2).1.length = s.length ∧ IsWords W (sqrDiagLoop W s a c1 c2).1 ∧
+    (sqrDiagLoop W s a c1 c2).2.1 ≤ 1 ∧ (sqrDiagLoop W s a c1 c2).2.2 ≤ 1 := by
+  intro a
+  induction a with
+  | nil =>
+    intro s c1 c2 hl hs _ h1 h2
+    simp only [List.length_nil, Nat.mul_zero] at hl
+    have : s = [] := List.eq_nil_of_length_eq_zero hl
+    subst this
+    simp [sqrDiagLoop, diag, IsWords.nil, h1, h2]
+  | cons m as ih =>
+    intro s c1 c2 hl hs ha h1 h2
+    simp only [List.length_cons] at hl
+    obtain ⟨b0, b1, rest, rfl⟩ := exists_cons_cons (show 2 ≤ s.length by omega)
+    have hp : 0 < 2 ^ W := Nat.two_pow_pos W
+    have hpp : 0 < 2 ^ (2 * W) := Nat.two_pow_pos _
+    have hsq := two_pow_two_mul W
+    have hb0 := hs.head
+    have hb1 := hs.tail.head
+    have hm := ha.head
+    have hrl : rest.length = 2 * as.length := by simp at hl; omega
+    -- sizes
+    have hs0 : m * m + b0 + b0 < 2 ^ W * 2 ^ W := mul_add_add_lt_sq' hm hm hb0 hb0
+    have hwb : b1 * 2 ^ W + 1 ≤ 2 ^ W * 2 ^ W := by
+      have := Nat.mul_le_mul_right (2 ^ W) (show b1 + 1 ≤ 2 ^ W from hb1)
+      rw [Nat.add_mul, Nat.one_mul] at this
+      omega
+    simp only [sqrDiagLoop]
+    rw [hsq]
+    have hd1 := Nat.div_add_mod (m * m + b0 + b0 + (b1 * 2 ^ W + c1)) (2 ^ W * 2 ^ W)
+    have hq1 : (m * m + b0 + b0 + (b1 * 2 ^ W + c1)) / (2 ^ W * 2 ^ W) ≤ 1 := by
+      have : m * m + b0 + b0 + (b1 * 2 ^ W + c1) < 2 * (2 ^ W * 2 ^ W) := by omega
+      have := (Nat.div_lt_iff_lt_mul (by rw [← hsq]; exact hpp)).mpr this
+      omega
+    have hm1 : (m * m + b0 + b0 + (b1 * 2 ^ W + c1)) % (2 ^ W * 2 ^ W) < 2 ^ W * 2 ^ W :=
+      Nat.mod_lt _ (by rw [← hsq]; exact hpp)
+    generalize (m * m + b0 + b0 + (b1 * 2 ^ W + c1)) / (2 ^ W * 2 ^ W) = oc1 at *
+    generalize (m * m + b0 + b0 + (b1 * 2 ^ W + c1)) % (2 ^ W * 2 ^ W) = r1 at *
+    have hd2 := Nat.div_add_mod (r1 + (b1 * 2 ^ W + c2)) (2 ^ W * 2 ^ W)
+    have hq2 : (r1 + (b1 * 2 ^ W + c2)) / (2 ^ W * 2 ^ W) ≤ 1 := by
+      have : r1 + (b1 * 2 ^ W + c2) < 2 * (2 ^ W * 2 ^ W) := by omega
+      have := (Nat.div_lt_iff_lt_mul (by rw [← hsq]; exact hpp)).mpr this
+      omega
+    have hm2 : (r1 + (b1 * 2 ^ W + c2)) % (2 ^ W * 2 ^ W) < 2 ^ W * 2 ^ W :=
+      Nat.mod_lt _ (by rw [← hsq]; exact hpp)
+    generalize (r1 + (b1 * 2 ^ W + c2)) / (2 ^ W * 2 ^ W) = oc2 at *
+    generalize (r1 + (b1 * 2 ^ W + c2)) % (2 ^ W * 2 ^ W) = o at *
+    obtain ⟨i1, i2, i3, i4, i5⟩ := ih rest oc1 oc2 hrl hs.tail.tail ha.tail hq1 hq2
+    generalize sqrDiagLoop W rest as oc1 oc2 = res at i1 i2 i3 i4 i5
+    obtain ⟨r, cc⟩ := res
+    simp only at i1 i2 i3 i4 i5 ⊢
+    have ho1 : o / 2 ^ W < 2 ^ W := (Nat.div_lt_iff_lt_mul hp).mpr hm2
+    have hod := Nat.div_add_mod o (2 ^ W)
+    refine ⟨?_, by simp [i2], IsWords.cons (Nat.mod_lt _ hp) (IsWords.cons ho1 i3), i4, i5⟩
+    simp only [val_cons, diag, List.length_cons]
+    rw [pow_mul_succ, pow_mul_succ]
+    have e : 2 ^ W * 2 ^ W * (val W r + 2 ^ (W * rest.length) * (cc.1 + cc.2))
+        = 2 ^ W * 2 ^ W * (2 * val W rest + diag W as + oc1 + oc2) := by rw [i1]
+    linarith [e, hd1, hd2, hod]
+
+theorem dropLast_append_getLast (l : List Nat) (h : l ≠ []) : l.dropLast ++ [l.getLastD 0] = l := by
+  rw [List.getLastD_eq_getLast?, List.getLast?_eq_some_getLast h]
+  exact List.dropLast_append_getLast h
+
+/-- `sqr::simple::square`: on a zero-filled buffer the three carry bits are zero and the buffer holds `a²` -/
+theorem sqrSimple_spec (W : Nat) (a : List Nat) (ha : IsWords W a) (hne : a ≠ []) :
+    val W (sqrSimple W a) = val W a * val W a ∧ (sqrSimple W a).length = 2 * a.length ∧
+    IsWords W (sqrSimple W a) := by
+  have hsq := sq_eq_tri_diag W a
+  have hlt : val W a * val W a < 2 ^ (W * (2 * a.length)) := by
+    have h := val_lt W a ha
+    have : 2 ^ (W * (2 * a.length)) = 2 ^ (W * a.length) * 2 ^ (W * a.length) := by
+      rw [← Nat.pow_add]; congr 1; ring
+    rw [this]; exact Nat.mul_lt_mul'' h h
+  obtain ⟨⟨t1, t2, t3⟩, t4⟩ := sqrTriLoop_spec W a (List.replicate (2 * a.length) 0) 0 (by simp)
+    (isWords_replicate_zero W _) ha (by omega)
+  simp only [sqrSimple]
+  generalize sqrTriLoop W (List.replicate (2 * a.length) 0) a 0 = res1 at t1 t2 t3 t4
+  obtain ⟨bA, c0⟩ := res1
+  simp only [List.length_replicate, val_replicate_zero, Nat.cast_zero, mul_zero, add_zero, zero_add]
+    at t1 t2 t3 t4 ⊢
+  have t3' : val W bA + 2 ^ (W * (2 * a.length)) * c0 = tri W a := by exact_mod_cast t3
+  have hc0 : c0 = 0 := by
+    rcases (by omega : c0 = 0 ∨ c0 = 1) with h | h
+    · exact h
+    · subst h; omega
+  subst hc0
+  simp only [Nat.mul_zero, Nat.add_zero] at t3'
+  obtain ⟨d1, d2, d3, d4, d5⟩ := sqrDiagLoop_spec W a bA 0 0 t1 t2 ha (by omega) (by omega)
+  generalize sqrDiagLoop W bA a 0 0 = res2 at d1 d2 d3 d4 d5
+  obtain ⟨bB, cc⟩ := res2
+  simp only [Nat.add_zero] at d1 d2 d3 d4 d5 ⊢
+  rw [t1, t3'] at d1
+  have hbB := val_lt W bB d3
+  rw [d2, t1] at hbB
+  have hcc : cc.1 + cc.2 = 0 := by
+    rcases Nat.eq_zero_or_pos (cc.1 + cc.2) with h | h
+    · exact h
+    · have : 2 ^ (W * (2 * a.length)) ≤ 2 ^ (W * (2 * a.length)) * (cc.1 + cc.2) :=
+        Nat.le_mul_of_pos_right _ h
+      omega
+  have hcc1 : cc.1 = 0 := by omega
+  have hcc2 : cc.2 = 0 := by omega
+  rw [hcc, Nat.mul_zero, Nat.add_zero] at d1
+  have hbne : bB ≠ [] := by
+    intro e; subst e
+    simp at d2
+    have : a.length = 0 := by omega
+    exact hne (List.eq_nil_of_length_eq_zero this)
+  simp only [hcc1, hcc2, Nat.add_zero]
+  rw [dropLast_append_getLast bB hbne]
+  exact ⟨by rw [d1, hsq], by rw [d2, t1], d3⟩
+
+
+/-- `sqr::sqr`: both arms produce `a²` in `2·a.len()` words -/
+theorem sqrBuffer_spec (W : Nat) (hW : 3 ≤ W) (a : List Nat) (ha : IsWords W a) (hne : a ≠ []) :
+    val W (sqrBuffer W a) = val W a * val W a ∧ IsWords W (sqrBuffer W a) := by
+  unfold sqrBuffer
+  split
+  · obtain ⟨h1, _, h3⟩ := sqrSimple_spec W a ha hne
+    exact ⟨h1, h3⟩
+  · have hc := addSignedMulSameLen_contract W hW a.length (List.replicate (2 * a.length) 0) false a a
+      rfl (by simp; omega) (isWords_replicate_zero W _) ha ha
+    obtain ⟨_, h2, _, h4⟩ := upd_zero_product W (2 * a.length) _ _ _ hc
+      (mul_lt_pow_int W a a ha ha _ (by omega))
+    exact ⟨h2, h4⟩
+
 end Dashu.Model
